@@ -3,7 +3,8 @@
  * handle (docs/concepts/ctx.md: "remember to close() libmodule's fd retrieved through m_ctx_fd()"): the library must
  * close its own handle and the tick descriptor by the time the context is gone, and must never close the duplicate.
  * Per job: TICK (0 none, 1 set before the loop starts, 2 set while looping, 3 set before and replaced while looping,
- * 4 set while looping and cleared again (0), 5 set while looping, never fires, loop ends with it armed),
+ * 4 set while looping and cleared again (0), 5 set while looping, never fires, loop ends with it armed,
+ * 6 set from the start callback of a module that the loop-start evaluation pass starts),
  * CTXFD (0/1 m_ctx_fd() taken while looping, 2 taken before the loop), END (0 the module is deregistered, the loop stops
  * for lack of modules; 1 m_ctx_quit(code), loop stops, module deregistered afterwards; 2 like 1 but the loop is started
  * a second time before the teardown: the tick descriptor is created and closed twice).
@@ -21,8 +22,19 @@
 #ifndef END
 #define END 0
 #endif
+#if TICK == 6
+#define VF_ACTION tick_action
+static void tick_action(int who, int kind, struct _mod *m, const m_queue_t *q);
+#endif
 #include "l2.h"
 #include "c20_oracle.c"
+#if TICK == 6
+static int tick_set_r = 1;
+static void tick_action(int who, int kind, m_mod_t *m, const m_queue_t *q) {
+    /* a module started by the loop-start evaluation pass configures the tick from its start callback */
+    if (kind == VF_CB_START && who == 1) tick_set_r = m_ctx_set_tick(5000000);
+}
+#endif
 
 static int take_ctx_fd(void) {
     int fd = m_ctx_fd();
@@ -49,7 +61,13 @@ int vf_main(void) {
     r = m_ctx_set_tick(5000000); VF_CHECK(r == 0, "tick set before the loop");
     VF_CHECK(vf_find_kind(VF_TIMER, 0) < 0, "harness sanity: no timer descriptor before the loop runs");
 #endif
+#if TICK == 6
+    m_mod_t *W = vf_mod(1, 0, NULL);
+#endif
     r = m_ctx_dispatch(); VF_CHECK(r == 0, "loop starts");
+#if TICK == 6
+    VF_CHECK(m_mod_is(W, M_MOD_RUNNING) && tick_set_r == 0, "W started by the evaluation pass, tick configured in its start callback");
+#endif
 #if CTXFD == 1
     cfd = take_ctx_fd();
 #endif
@@ -72,6 +90,9 @@ int vf_main(void) {
 #endif
     c20_untouched();
 #if END == 0
+#if TICK == 6
+    r = m_mod_deregister(&vf_mods[1]); VF_CHECK(r == 0, "deregister W");
+#endif
     r = m_mod_deregister(&A); VF_CHECK(r == 0 && A == NULL, "deregister A");
     r = m_ctx_dispatch(); VF_CHECK(r == 0, "no module left: the loop stops and the context goes away");
 #else
@@ -85,6 +106,9 @@ int vf_main(void) {
 #endif
     r = m_ctx_quit(code); VF_CHECK(r == 0, "quit again");
     r = m_ctx_dispatch(); VF_CHECK(r == code, "loop ends again");
+#endif
+#if TICK == 6
+    r = m_mod_deregister(&vf_mods[1]); VF_CHECK(r == 0, "deregister W");
 #endif
     r = m_mod_deregister(&A); VF_CHECK(r == 0 && A == NULL, "deregister A: the idle context goes with its last module");
 #endif
